@@ -847,9 +847,23 @@ def getattr_(I, o, name, node=None):
         if name in o.fields:
             return o.fields[name]
         if name == "__class__":
-            return ClassRef(o.cls)
+            return ClassRef(o.cls) if isinstance(o.cls, ClassInfo) else o.fields.get("__class__", o.cls)
         if name == "__dict__":
             return dict(o.fields)
+        if name in ("__getattribute__", "__getattr__") and not (isinstance(o.cls, ClassInfo) and o.cls.find_method(name)):
+            def dyn_get(I2, a, k, o=o):
+                n = I2.force(a[0])
+                if not isinstance(n, str):
+                    raise OutsideSubset("__getattribute__ with a symbolic name")
+                return getattr_(I2, o, n)
+            return NativeFn("__getattribute__", dyn_get)
+        if name == "__setattr__" and not (isinstance(o.cls, ClassInfo) and o.cls.find_method(name)):
+            def dyn_set(I2, a, k, o=o):
+                n = I2.force(a[0])
+                if not isinstance(n, str):
+                    raise OutsideSubset("__setattr__ with a symbolic name")
+                setattr_(I2, o, n, a[1])
+            return NativeFn("__setattr__", dyn_set)
         if isinstance(o.cls, ClassInfo) and any(isinstance(b, str) and b.split(".")[-1] == "UserDict" for c in o.cls.mro() if isinstance(c, ClassInfo) for b in c.bases()) \
                 and name in ("clear", "items", "keys", "values", "get", "update", "copy") and o.cls.find_method(name) is None:
             # collections.UserDict (assumed stdlib contract): a mapping stored in self.data; these methods act on self.data only
